@@ -20,7 +20,9 @@ BASES = ["http://h", "http://h/", "http://h/a", "http://h/a/", "http://h/a/b", "
          "http://h/.hidden", "http://h/a.", "http://h/a/b.c.d?q=1#f", "http://u:p@h:81/a", "//h/a/b", "/", "/a", "/a/", "/a/b.txt", "a", "a/",
          "a/b.c", "", "x:a/b", "x:/a", "http://h/%C3%A9.txt", "http://h/a//b", "/a%2Eb/c%25.d",
          # names whose last dot is the last or first character, with other dots around
-         "http://h/d/archive.tar.", "http://h/a..", "http://h/.a.b.", "http://h/report.v2.", "/x/..b", "http://h/a.b..", "http://h/d//n.t"]
+         "http://h/d/archive.tar.", "http://h/a..", "http://h/.a.b.", "http://h/report.v2.", "/x/..b", "http://h/a.b..", "http://h/d//n.t",
+         # a suffix that carries escapes (its raw and decoded lengths differ)
+         "http://h/f.%D1%82x", "http://h/d/report.a%20b", "/r.%C3%A9", "x.%25y"]
 SEGS = ["s", "a b", "é", "x.y", ".h", "a.", "%2F", "a%2Fb", "%", "a+b", "a;b=c", ":", "@", "~", "a?b", "a#b", "日本", "..a", ".", "..", ""]
 SUFFIXES = [".py", ".tar.gz", "", ".a b", ".é", ".%41", ".", "py"]
 
